@@ -37,6 +37,43 @@ class Raised(Exception):
         self.what = what
 
 
+class _Shared(dict):
+    """An environment that closures share with their defining scope (reads fall through to the parent)."""
+
+    parent = None
+    nonlocals = frozenset()
+
+    def child(self, nonlocals=()):
+        c = _Shared()
+        c.parent = self
+        c.nonlocals = frozenset(nonlocals)
+        return c
+
+    def assign(self, k, v):
+        if k in self.nonlocals:
+            p = self.parent
+            while p is not None:
+                if dict.__contains__(p, k):
+                    dict.__setitem__(p, k, v)
+                    return
+                p = p.parent
+        dict.__setitem__(self, k, v)
+
+    def get(self, k, default=None):
+        try:
+            return self[k]
+        except KeyError:
+            return default
+
+    def __missing__(self, k):
+        if self.parent is not None:
+            return self.parent[k]
+        raise KeyError(k)
+
+    def __contains__(self, k):
+        return dict.__contains__(self, k) or (self.parent is not None and k in self.parent)
+
+
 class Closure:
     def __init__(self, node, env, self_obj=None):
         self.node = node
@@ -49,6 +86,24 @@ class Record:
 
     def __init__(self, **kw):
         self.__dict__.update(kw)
+
+
+class HostFn:
+    """A stub supplied by the analysis (never repository code) that interpreted code may call."""
+
+    def __init__(self, fn):
+        self.fn = fn
+
+    def __call__(self, *a, **k):
+        return self.fn(*a, **k)
+
+
+class Instance(Record):
+    """An object of a class of the package whose methods are interpreted (e.g. the name database)."""
+
+    def __init__(self, cls_name, methods):
+        self._cls_name = cls_name
+        self._methods = methods
 
 
 def marker(kind, node):
@@ -72,6 +127,12 @@ SAFE_BUILTINS = {
     "hasattr": hasattr,
     "getattr": getattr,
     "int": int,
+    "float": float,
+    "set": set,
+    "dict": dict,
+    "id": id,
+    "sum": sum,
+    "map": lambda f, *xs: [f(*a) for a in zip(*xs)],
     "str": str,
     "repr": repr,
     "min": min,
@@ -81,7 +142,9 @@ SAFE_BUILTINS = {
 
 
 class HostInterp:
-    def __init__(self, cls_methods, self_obj, lookup_table, subtler_token="SUBTLER", globals_env=None):
+    def __init__(self, cls_methods, self_obj, lookup_table, subtler_token="SUBTLER", globals_env=None, classes=None, functions=None):
+        self.classes = classes or {}      # name -> {method name -> FunctionDef}: classes whose objects are interpreted
+        self.functions = functions or {}  # name -> FunctionDef: module functions that are interpreted when called
         self.methods = cls_methods  # name -> FunctionDef of the rewriter class
         self.self_obj = self_obj
         self.lookup_table = lookup_table
@@ -98,7 +161,12 @@ class HostInterp:
 
     def call_function(self, fn, args, kwargs, closure_env):
         params = [a.arg for a in fn.args.posonlyargs + fn.args.args]
-        env = dict(closure_env)
+        parent = closure_env if isinstance(closure_env, _Shared) else _Shared(closure_env)
+        nl = set()
+        for n in ast.walk(fn):
+            if isinstance(n, ast.Nonlocal):
+                nl |= set(n.names)
+        env = parent.child(nl)
         defaults = fn.args.defaults
         dmap = dict(zip(params[len(params) - len(defaults):], defaults))
         for i, p in enumerate(params):
@@ -166,26 +234,44 @@ class HostInterp:
             if not broke:
                 self.block(st.orelse, env)
             return
+        if isinstance(st, ast.While):
+            n = 0
+            while self.ev(st.test, env):
+                n += 1
+                if n > 1000:
+                    raise AnalysisError("interpretation: while loop does not terminate")
+                try:
+                    self.block(st.body, env)
+                except _Break:
+                    break
+                except _Continue:
+                    continue
+            return
         if isinstance(st, ast.Break):
             raise _Break()
         if isinstance(st, ast.Continue):
             raise _Continue()
         if isinstance(st, ast.Raise):
             raise Raised(dotted(st.exc.func) if isinstance(st.exc, ast.Call) else "raise")
-        if isinstance(st, (ast.Pass, ast.Assert, ast.Import, ast.ImportFrom)):
+        if isinstance(st, (ast.Pass, ast.Assert, ast.Import, ast.ImportFrom, ast.Nonlocal, ast.Global)):
             return
         raise AnalysisError(f"rewriter interpretation: unsupported statement {type(st).__name__} at line {st.lineno}")
 
     def bind(self, target, value, env):
         if isinstance(target, ast.Name):
-            env[target.id] = value
+            if isinstance(env, _Shared):
+                env.assign(target.id, value)
+            else:
+                env[target.id] = value
         elif isinstance(target, (ast.Tuple, ast.List)):
             vals = list(value)
             for t, v in zip(target.elts, vals):
                 self.bind(t, v, env)
         elif isinstance(target, ast.Attribute):
             obj = self.ev(target.value, env)
-            if isinstance(obj, (ast.AST, Record)):
+            if isinstance(obj, Instance):
+                obj.__dict__[target.attr] = value
+            elif isinstance(obj, (ast.AST, Record)):
                 setattr(obj, target.attr, value)
             else:
                 raise AnalysisError("rewriter interpretation: attribute store on a non-node")
@@ -206,6 +292,12 @@ class HostInterp:
                 return self.globals_env[e.id]
             if e.id == "ast":
                 return ast
+            if e.id in ("re", "textwrap"):
+                return __import__(e.id)
+            if e.id in self.classes:
+                return ("class", e.id)
+            if e.id in self.functions:
+                return Closure(self.functions[e.id], {})
             if e.id in SAFE_BUILTINS:
                 return SAFE_BUILTINS[e.id]
             if e.id in ("True", "False", "None"):
@@ -215,6 +307,12 @@ class HostInterp:
             obj = self.ev(e.value, env)
             if obj is ast:
                 return getattr(ast, e.attr)
+            if isinstance(obj, Instance):
+                if e.attr in obj.__dict__:
+                    return obj.__dict__[e.attr]
+                if e.attr in obj._methods:
+                    return ("bound", obj, obj._methods[e.attr])
+                raise AnalysisError(f"interpretation: {obj._cls_name} object has no attribute {e.attr}")
             if isinstance(obj, Record):
                 if hasattr(obj, e.attr):
                     return getattr(obj, e.attr)
@@ -225,13 +323,29 @@ class HostInterp:
                 raise AnalysisError(f"rewriter interpretation: unknown attribute self.{e.attr}")
             if isinstance(obj, ast.AST):
                 return getattr(obj, e.attr)
-            if isinstance(obj, (list, str, tuple)) and e.attr in ("append", "insert", "extend", "startswith", "endswith", "format", "join"):
+            if isinstance(obj, (list, str, tuple, set, dict)) and not e.attr.startswith("_"):
+                return getattr(obj, e.attr)
+            import re as _re
+            import textwrap as _tw
+
+            if obj in (_re, _tw) and not e.attr.startswith("_"):
+                return getattr(obj, e.attr)
+            if isinstance(obj, _re.Match):
                 return getattr(obj, e.attr)
             raise AnalysisError(f"rewriter interpretation: attribute {e.attr} of {type(obj).__name__}")
         if isinstance(e, ast.JoinedStr):
             out = ""
             for v in e.values:
-                out += str(v.value) if isinstance(v, ast.Constant) else format(self.ev(v.value, env))
+                if isinstance(v, ast.Constant):
+                    out += str(v.value)
+                else:
+                    val = self.ev(v.value, env)
+                    if v.conversion == 114:
+                        val = repr(val)
+                    elif v.conversion == 115:
+                        val = str(val)
+                    spec = self.ev(v.format_spec, env) if v.format_spec is not None else ""
+                    out += format(val, spec)
             return out
         if isinstance(e, (ast.List, ast.Tuple)):
             out = []
@@ -241,6 +355,28 @@ class HostInterp:
                 else:
                     out.append(self.ev(x, env))
             return out if isinstance(e, ast.List) else tuple(out)
+        if isinstance(e, ast.Dict):
+            out = {}
+            for k, v in zip(e.keys, e.values):
+                if k is None:
+                    out.update(self.ev(v, env))
+                else:
+                    out[self.ev(k, env)] = self.ev(v, env)
+            return out
+        if isinstance(e, ast.Set):
+            return {self.ev(x, env) for x in e.elts}
+        if isinstance(e, ast.SetComp):
+            return set(self.comp(e, env))
+        if isinstance(e, ast.DictComp):
+            out = {}
+            fake = ast.ListComp(elt=ast.Tuple(elts=[e.key, e.value], ctx=ast.Load()), generators=e.generators)
+            for k, v in self.comp(fake, env):
+                out[k] = v
+            return out
+        if isinstance(e, ast.Lambda):
+            return Closure(ast.FunctionDef(name="<lambda>", args=e.args, body=[ast.Return(value=e.body)], decorator_list=[]), env)
+        if isinstance(e, ast.UnaryOp) and isinstance(e.op, ast.USub):
+            return -self.ev(e.operand, env)
         if isinstance(e, ast.UnaryOp) and isinstance(e.op, ast.Not):
             return not self.ev(e.operand, env)
         if isinstance(e, ast.BoolOp):
@@ -259,6 +395,13 @@ class HostInterp:
             return v
         if isinstance(e, ast.IfExp):
             return self.ev(e.body if self.ev(e.test, env) else e.orelse, env)
+        if isinstance(e, ast.BinOp) and isinstance(e.op, (ast.Sub, ast.Mult)):
+            a, b = self.ev(e.left, env), self.ev(e.right, env)
+            if isinstance(e.op, ast.Sub) and isinstance(a, (int, set)) and isinstance(b, (int, set)):
+                return a - b
+            if isinstance(e.op, ast.Mult) and isinstance(a, (list, str, int)) and isinstance(b, int):
+                return a * b
+            raise AnalysisError("interpretation: unsupported arithmetic")
         if isinstance(e, ast.BinOp) and isinstance(e.op, ast.Add):
             a, b = self.ev(e.left, env), self.ev(e.right, env)
             if isinstance(a, tuple) and isinstance(b, tuple) or isinstance(a, list) and isinstance(b, list) or isinstance(a, str) and isinstance(b, str) or isinstance(a, int) and isinstance(b, int):
@@ -282,14 +425,18 @@ class HostInterp:
                     ok = left in right
                 elif isinstance(op, ast.NotIn):
                     ok = left not in right
+                elif isinstance(op, (ast.Lt, ast.LtE, ast.Gt, ast.GtE)) and isinstance(left, (int, float)) and isinstance(right, (int, float)):
+                    ok = {ast.Lt: left < right, ast.LtE: left <= right, ast.Gt: left > right, ast.GtE: left >= right}[type(op)]
                 else:
-                    raise AnalysisError("rewriter interpretation: unsupported comparison")
+                    raise AnalysisError("interpretation: unsupported comparison")
                 if not ok:
                     return False
                 left = right
             return True
         if isinstance(e, ast.Subscript):
             obj = self.ev(e.value, env)
+            if isinstance(obj, Instance) and "__getitem__" in obj._methods:
+                return self.call_function(obj._methods["__getitem__"], [obj, self.ev(e.slice, env)], {}, {})
             if isinstance(e.slice, ast.Slice):
                 lo = self.ev(e.slice.lower, env) if e.slice.lower else None
                 hi = self.ev(e.slice.upper, env) if e.slice.upper else None
@@ -297,7 +444,7 @@ class HostInterp:
             return obj[self.ev(e.slice, env)]
         if isinstance(e, ast.NamedExpr):
             v = self.ev(e.value, env)
-            env[e.target.id] = v
+            self.bind(e.target, v, env)
             return v
         if isinstance(e, (ast.ListComp, ast.GeneratorExp)):
             return self.comp(e, env)
@@ -314,12 +461,12 @@ class HostInterp:
                 return
             g = c.generators[i]
             for v in list(self.ev(g.iter, env2)):
-                e3 = dict(env2)
+                e3 = env2.child() if isinstance(env2, _Shared) else dict(env2)
                 self.bind(g.target, v, e3)
                 if all(self.ev(cond, e3) for cond in g.ifs):
                     rec(i + 1, e3)
 
-        rec(0, dict(env))
+        rec(0, env.child() if isinstance(env, _Shared) else dict(env))
         return out
 
     def call(self, e, env):
@@ -337,7 +484,12 @@ class HostInterp:
                 args.extend(self.ev(a.value, env))
             else:
                 args.append(self.ev(a, env))
-        kwargs = {k.arg: self.ev(k.value, env) for k in e.keywords if k.arg is not None}
+        kwargs = {}
+        for k in e.keywords:
+            if k.arg is not None:
+                kwargs[k.arg] = self.ev(k.value, env)
+            else:
+                kwargs.update(self.ev(k.value, env))
         if isinstance(fn, tuple) and fn and fn[0] == "builtin-visit":
             node = args[0]
             if fn[1] == "visit":
@@ -346,8 +498,18 @@ class HostInterp:
         if isinstance(fn, tuple) and fn and fn[0] == "method":
             m = self.methods[fn[1]]
             return self.call_function(m, [self.self_obj] + args, kwargs, {})
+        if isinstance(fn, HostFn):
+            return fn(*args, **kwargs)
         if isinstance(fn, Closure):
             return self.call_function(fn.node, args, kwargs, fn.env)
+        if isinstance(fn, tuple) and fn and fn[0] == "bound":
+            return self.call_function(fn[2], [fn[1]] + args, kwargs, {})
+        if isinstance(fn, tuple) and fn and fn[0] == "class":
+            methods = self.classes[fn[1]]
+            obj = Instance(fn[1], methods)
+            if "__init__" in methods:
+                self.call_function(methods["__init__"], [obj] + args, kwargs, {})
+            return obj
         if fn is isinstance:
             return isinstance(args[0], args[1])
         if isinstance(fn, type) and issubclass(fn, ast.AST):
@@ -361,6 +523,12 @@ class HostInterp:
             return new
         if callable(fn) and any(fn is v for v in self.globals_env.values()):
             return fn(*args, **kwargs)
-        if fn in SAFE_BUILTINS.values() or (callable(fn) and getattr(fn, "__self__", None) is not None and isinstance(fn.__self__, (list, str, tuple))):
-            return fn(*args, **kwargs)
+        import re as _re
+        import textwrap as _tw
+
+        if fn in SAFE_BUILTINS.values() or (callable(fn) and getattr(fn, "__self__", None) is not None and isinstance(fn.__self__, (list, str, tuple, set, dict, _re.Match))) or getattr(fn, "__module__", None) in ("re", "textwrap"):
+            try:
+                return fn(*args, **kwargs)
+            except (TypeError, ValueError, KeyError, IndexError) as ex:
+                raise AnalysisError(f"interpretation: {d or fn} failed on abstract values: {type(ex).__name__}: {ex}")
         raise AnalysisError(f"rewriter interpretation: call of {d or type(fn).__name__} is not supported")
